@@ -255,9 +255,9 @@ impl<'a> Iterator for FindPath<'a> {
         while let Some(child_id) = child_id_opt {
             let child = &self.store[child_id.0].value;
             if child.pos.col <= self.pos.col
-                && self.pos.col < child.pos.col + child.size.width
+                && self.pos.col - child.pos.col < child.size.width
                 && child.pos.row <= self.pos.row
-                && self.pos.row < child.pos.row + child.size.height
+                && self.pos.row - child.pos.row < child.size.height
             {
                 self.pos = Position {
                     row: self.pos.row - child.pos.row,
